@@ -42,6 +42,10 @@ func decRat(d sdk.Dec) *big.Rat {
 func alignMs(t time.Time) time.Time { return t.Truncate(time.Millisecond) }
 
 func runC19(c *fw.Case) {
+	if c.Index%16 == 11 {
+		longHorizonProbe(c, "C19")
+		return
+	}
 	mc := gen.Minters(c.R, gen.MintDenom(c.R), 30)
 	mintDenom := mc.Params.MintDenom
 	// every tenth case: linear periods of astronomic size (up to 10^62). Minting still works for
